@@ -447,10 +447,15 @@ FieldChoices(b, c, n) ==
                    THEN {[e |-> Plain(Name(DeclNames[1][1].w, "camel"), InlineObject(NoName, <<MinField(2)>>)), rich |-> 1,
                           label |-> "inline-named-like-referenced-type"]}
                    ELSE {}
+        \* a declared field of the type of the implied metadata field (R "Topics": reqres / upsert messages get request / upsert
+        \* metadata as field 1): the implied field stays, the declared one is numbered by its position
+        metaref == IF Breadth = "full" /\ c.ctx = "topicmsg"
+                   THEN {[e |-> Plain(Name(<<"thing">>, "camel"), Scalar("msgmeta")), rich |-> 1, label |-> "field-of-implied-metadata-type"]}
+                   ELSE {}
         \* multi-package bundles exist for the reference forms: only references (and minimal fields) are added there when Focused
         refsOnly == Focused /\ Len(b.pkgs) > 1
     IN {[e |-> MinField(n + 1), rich |-> 0, label |-> ""]} \cup refs
-       \cup (IF refsOnly THEN {} ELSE scal \cup inl \cup names \cup selfname \cup selfdeep \cup reftype)
+       \cup (IF refsOnly THEN {} ELSE scal \cup inl \cup names \cup selfname \cup selfdeep \cup reftype \cup metaref)
 
 \* R "Oneof": options are objects, inline or by reference
 OptionChoices(b, c, n) ==
